@@ -202,6 +202,11 @@ func renderTokens(toks []Tok, fill bool, lo layout) rendered {
 			wr("(")
 		}
 		if b != "" {
+			// the last line of a schema / enum / regex body may carry trailing blanks like any other line
+			// (not a Description text, whose blanks are content)
+			if lo.rng != nil && t.K != "Description" && lo.rng.intn(3) == 0 {
+				b += []string{" ", "\t", "  "}[lo.rng.intn(3)]
+			}
 			wr(b)
 		}
 		afterDescription = t.K == "Description"
